@@ -1092,6 +1092,16 @@ func (p *Prog) Def(v ssa.Value) ssa.Value {
 func (p *Prog) DefX(v ssa.Value) ssa.Value {
 	for i := 0; i < 8; i++ {
 		v = p.Def(v)
+		if ld, isLoad := v.(*ssa.UnOp); isLoad && ld.Op == token.MUL {
+			// a field that the whole module assigns exactly once (state gathered in a struct literal): the assigned value
+			if fa, isFA := ld.X.(*ssa.FieldAddr); isFA {
+				if st := p.uniqueFieldStore(fa); st != nil {
+					v = st.Val
+					continue
+				}
+			}
+			return v
+		}
 		pa, ok := v.(*ssa.Parameter)
 		if !ok {
 			return v
@@ -1132,6 +1142,57 @@ func (p *Prog) DefX(v ssa.Value) ssa.Value {
 		v = origin
 	}
 	return v
+}
+
+func fieldStoreKey(fa *ssa.FieldAddr) (string, *types.Named) {
+	pt, ok := fa.X.Type().Underlying().(*types.Pointer)
+	if !ok {
+		return "", nil
+	}
+	nt, ok := pt.Elem().(*types.Named)
+	if !ok || nt.Obj().Pkg() == nil {
+		return "", nil
+	}
+	return nt.Obj().Pkg().Path() + "." + nt.Obj().Name() + "#" + fmt.Sprint(fa.Field), nt
+}
+
+// uniqueFieldStore: the one store the module makes into field fa of a module struct type, if there is exactly one and no
+// whole-struct assignment of that type exists.
+func (p *Prog) uniqueFieldStore(fa *ssa.FieldAddr) *ssa.Store {
+	if p.fieldStores == nil {
+		p.fieldStores = map[string][]*ssa.Store{}
+		p.structClobbered = map[string]bool{}
+		for _, f := range p.ModFuncs {
+			for _, b := range f.Blocks {
+				for _, in := range b.Instrs {
+					st, ok := in.(*ssa.Store)
+					if !ok {
+						continue
+					}
+					if a, ok := st.Addr.(*ssa.FieldAddr); ok {
+						if k, _ := fieldStoreKey(a); k != "" {
+							p.fieldStores[k] = append(p.fieldStores[k], st)
+						}
+					}
+					if nt, ok := st.Val.Type().(*types.Named); ok && nt.Obj().Pkg() != nil {
+						if _, isStruct := nt.Underlying().(*types.Struct); isStruct {
+							if _, isConst := st.Val.(*ssa.Const); !isConst {
+								p.structClobbered[nt.Obj().Pkg().Path()+"."+nt.Obj().Name()] = true
+							}
+						}
+					}
+				}
+			}
+		}
+	}
+	k, nt := fieldStoreKey(fa)
+	if k == "" || !strings.HasPrefix(nt.Obj().Pkg().Path(), ModulePath) || p.structClobbered[nt.Obj().Pkg().Path()+"."+nt.Obj().Name()] {
+		return nil
+	}
+	if sts := p.fieldStores[k]; len(sts) == 1 {
+		return sts[0]
+	}
+	return nil
 }
 
 func singleStore(a *ssa.Alloc) *ssa.Store {
